@@ -34,3 +34,9 @@ Definition model_subdiv (s : str) : list (N * str) :=
   map (fun e => (kind_code (fst e), snd e)) (block_comment_elems s).
 Definition check_subdiv (s : str) (exp : list (N * str)) : bool :=
   list_eqb (pair_eqb N.eqb str_eqb) (model_subdiv s) exp.
+
+(** ** group bcmatch: the native block comment matcher on a text (comment + what follows);
+    expected = byte length of the match ([Pattern::matches] through [Cursor::lexed]) *)
+Definition case_t_bcmatch : Type := (N * str * option N)%type.
+Definition model_bcmatch (s : str) : option N := block_comment_match s.
+Definition check_bcmatch (s : str) (exp : option N) : bool := optN_eqb (model_bcmatch s) exp.
